@@ -290,9 +290,14 @@ def strategy():
         env = []
         if nodes > 1:
             for _ in range(draw(st.integers(0, 2))):
-                if draw(st.booleans()):
+                which = draw(st.integers(0, 2))
+                if which == 0:
                     env.append({"at": draw(st.sampled_from([0.01, 0.05, 0.2, 0.8])), "ev": "move_txn_coord",
                                 "to": draw(st.integers(0, nodes - 1))})
+                elif which == 1:
+                    # the consumer group's coordinator (target of TxnOffsetCommit) moves, keeping its state
+                    env.append({"at": draw(st.sampled_from([0.01, 0.03, 0.05, 0.1, 0.2, 0.8])), "ev": "move_group_coord",
+                                "to": draw(st.integers(0, nodes - 1)), "keep_state": True})
                 else:
                     env.append({"at": draw(st.sampled_from([0.01, 0.05, 0.2, 0.8])), "ev": "move_leader", "topic": "t0",
                                 "partition": draw(st.integers(0, nparts - 1)), "to": draw(st.integers(0, nodes - 1))})
@@ -308,5 +313,5 @@ def strategy():
 
 def campaigns(tier):
     th = tier == "thorough"
-    return [Campaign("txn_sim", "hyp", execute=execute, strategy=strategy, examples=30000 if th else 1200,
+    return [Campaign("txn_sim", "hyp", execute=execute, strategy=strategy, examples=30000 if th else 6000,
                      setup=TS.setup, max_wall=900 if th else 100, shrink_wall=40)]
